@@ -145,7 +145,8 @@ def main():
         for i in ids(a.args):
             d = os.path.join(SEEDED, i)
             meta = load_meta(d)
-            prop = meta.get("property") or i.split("-")[0]
+            # (a few mutants sit in code that another property's check exercises: meta "check_with")
+            prop = meta.get("check_with") or meta.get("property") or i.split("-")[0]
             root = scratch(a.repo)
             out_dir = tempfile.mkdtemp(prefix="verif-out-", dir="/dev/shm")
             try:
